@@ -42,7 +42,7 @@ func configName(s *spec.Spec) string {
 	switch s.Property {
 	case "C09":
 		f := s.Config.Faults
-		anyF := f.InvalidPanic || f.Stall || f.Evict || f.MapOrder
+		anyF := f.InvalidPanic || f.Stall || f.Evict || f.MapOrder || f.ClockJump
 		if len(s.Tasks) == 1 {
 			if anyF {
 				return "seq-history+invalid-input"
@@ -124,7 +124,7 @@ func (a *agg) knownHits() []string {
 
 var wantProbes = map[string][]string{
 	"C09": {"mutex_lock", "mutex_contended", "preempt_holding_mutex", "stall_holding_mutex", "global_handoff", "recovered_panic", "published", "shared_read", "fault_step_invalid_panic", "fault_step_evict"},
-	"C10": {"moment_in_current_year", "near_new_year", "slot_contains_jie", "rat_slot", "lichun_day", "clock_jump_between_lookups", "zone_change_between_lookups", "base_not_default", "repeat_pillars_other_clock", "jie_on_full_hour", "sect_argument_other_than_1_or_2", "pillars_of_a_moment_just_before_base"},
+	"C10": {"moment_in_current_year", "near_new_year", "slot_contains_jie", "rat_slot", "lichun_day", "clock_jump_between_lookups", "zone_change_between_lookups", "base_not_default", "repeat_pillars_other_clock", "jie_on_full_hour", "sect_argument_other_than_1_or_2", "pillars_of_a_moment_just_before_base", "result_list_mutated_by_caller"},
 	"C14": {"fix_add_future", "fix_add_before_existing", "fix_add_between", "fix_replace", "fix_remove", "fix_remove_absent", "fix_names_extended", "fix_followup_on_touched_record", "fix_uses_appended_name", "fix_readd_removed_day", "fix_names_renamed_in_place", "fix_add_digit_pattern_at_year_boundary", "bad_key_recovered", "target_records_not_contiguous", "workday_steps", "salary_checked"},
 }
 
@@ -150,7 +150,7 @@ func (a *agg) write(tier string, seed uint64, wall float64, nviol int, streams i
 	}
 	switch a.p.id {
 	case "C09":
-		for _, k := range []string{"invalid_panic", "stall", "evict", "map_order"} {
+		for _, k := range []string{"invalid_panic", "stall", "evict", "map_order", "clock_jump"} {
 			if _, ok := fk[k]; !ok {
 				fk[k] = 0
 			}
@@ -213,7 +213,7 @@ func (a *agg) write(tier string, seed uint64, wall float64, nviol int, streams i
 }
 
 var faultNote = map[string]string{
-	"C09": "invalid_panic = operations with rejected/choking arguments executed and recovered inside scripts; stall = a task frozen at a scheduling point while others run; evict = operations of an evictor task on cold years; map_order = permuted map iterations (0 when the tree has no map range loop)",
+	"C09": "invalid_panic = operations with rejected/choking arguments executed and recovered inside scripts; stall = a task frozen at a scheduling point while others run; evict = operations of an evictor task on cold years; clock_jump = the simulated wall clock advanced by 61 s .. 1 day between two calls of a task; map_order = permuted map iterations (0 when the tree has no map range loop)",
 	"C10": "clock_jump / zone_change = the simulated wall clock or time.Local replaced between two lookups of a run; every run additionally starts from a PRNG-chosen clock, zone and per-read tick",
 	"C14": "no environment fault applies (single writer API, no I/O, no clock): 0 by construction; recovered malformed queries are counted under reach_probes.bad_key_recovered",
 }
